@@ -119,10 +119,7 @@ void regCsc(const std::string& cfg, unsigned ops) {
     R.push_back(mkEntry<E>(CscFam::name, cfg, "in_edges", &opInEdges<G>, 0, 3));
   if (ops & C_SORTIN) {
     R.push_back(mkEntry<E>(CscFam::name, cfg, "sortInEdgesByDst", &opSortIn<G, false>));
-    // sortInEdgesByDst crashes for <void, shared> (null inEdgeData); the parallel
-    // form would only repeat that crash on an arbitrary worker thread
-    if (!(std::is_void_v<E> && cfg.rfind("shared", 0) == 0))
-      R.push_back(mkEntry<E>(CscFam::name, cfg, "sortAllInEdgesByDst", &opSortIn<G, true>));
+    R.push_back(mkEntry<E>(CscFam::name, cfg, "sortAllInEdgesByDst", &opSortIn<G, true>));
   }
   if (ops & C_BIGR)
     R.push_back(mkEntry<E>(CscFam::name, cfg, "readAndConstructBiGraphFromGRFile", &opBiGR<G>));
